@@ -168,7 +168,7 @@ func (g *gen) step() {
 		{9, g.stepUpdate}, {7, g.stepFinalize}, {6, g.stepCancel},
 		{8, g.stepRead}, {4, g.stepReadPool}, {4, g.stepWritePoolLock},
 		{5, g.stepNewAlloc}, {7, g.stepFree}, {4, g.stepHealth},
-		{4, g.stepBlobberSettings}, {3, g.stepCollect}, {3, g.stepStake},
+		{4, g.stepBlobberSettings}, {3, g.stepCollect}, {3, g.stepStake}, {3, g.stepReprice},
 	}
 	if g.killOK {
 		acts = append(acts, act{6, g.stepKill})
@@ -426,11 +426,40 @@ func (g *gen) stepRead() {
 	a := g.someAlloc()
 	b := g.blobberOf(a)
 	client := g.clients[g.r.Intn(3)]
+	// concentrate on few (blobber, client, allocation) keys so that counters really advance: replays, older
+	// counters and deltas need a history on the same key
+	if len(g.readKeys) > 0 && g.chance(65) {
+		k := g.readKeys[g.r.Intn(len(g.readKeys))]
+		for _, al := range g.allocs {
+			if al.id == k[2] && g.byID[k[0]] != nil && g.w.Keys[k[1]] != nil {
+				a, b, client = al, g.byID[k[0]], g.w.Keys[k[1]]
+			}
+		}
+	}
 	key := [3]string{b.key.ID, client.ID, a.id}
 	ks := key[0] + key[1] + key[2]
 	if !g.readKeySet[ks] {
 		g.readKeySet[ks] = true
 		g.readKeys = append(g.readKeys, key)
+	}
+	// one read in five goes for an OLDER marker of a key whose counter has already advanced
+	forceOlder := false
+	if g.chance(20) {
+		var adv []storagesc.VerifStorageReadCounter
+		for _, c := range g.prev.ReadCtrs {
+			if c.Present && c.Counter >= 2 {
+				adv = append(adv, c)
+			}
+		}
+		if len(adv) > 0 {
+			c := adv[g.r.Intn(len(adv))]
+			for _, al := range g.allocs {
+				if al.id == c.Allocation && g.byID[c.Blobber] != nil && g.w.Keys[c.Client] != nil {
+					a, b, client, forceOlder = al, g.byID[c.Blobber], g.w.Keys[c.Client], true
+					key = [3]string{b.key.ID, client.ID, a.id}
+				}
+			}
+		}
 	}
 	last := int64(0)
 	for _, c := range g.prev.ReadCtrs {
@@ -438,16 +467,26 @@ func (g *gen) stepRead() {
 			last = c.Counter
 		}
 	}
-	ctr := last + g.pickI(1, 2, 5, 40)
+	ctr := last + g.pickI(2, 3, 5, 40)
 	variant := "fresh"
 	switch x := g.r.Intn(100); {
+	case forceOlder:
+		ctr, variant = last-g.pickI(1, 1, 3), "older"
+		if ctr < 1 {
+			ctr = 1
+		}
 	case x < 14:
 		ctr, variant = last, "replay"
-	case x < 24:
+	case x < 32 && last > 1: // an older marker of the same key
 		ctr, variant = last-g.pickI(1, 3), "older"
-	case x < 27:
+		if ctr < 1 {
+			ctr = 1
+		}
+	case x < 35:
+		ctr, variant = last-g.pickI(1, 3), "older"
+	case x < 38:
 		ctr, variant = 0, "zero"
-	case x < 30:
+	case x < 41:
 		ctr, variant = last+g.pickI(1500, 2000), "huge"
 	}
 	signer, sigOK, pub := client, true, client.Pub
@@ -629,6 +668,38 @@ func (g *gen) stepBlobberSettings() {
 		from, variant = b.key, variant+"-notdelegate"
 	}
 	g.do(from, "update_blobber_settings", in, 0, opInfo{variant: variant, tblob: b.key.ID})
+}
+
+// stepReprice: a blobber that stores data of an open allocation changes its write price (often to the minimum),
+// then the owner extends the allocation: adjustChallengePool moves value out of / into the challenge pool with
+// the new terms (DESIGN §7 #19: the per-blobber value is adjusted with unchecked arithmetic).
+func (g *gen) stepReprice() {
+	type cand struct {
+		a *allocInfo
+		b *prov
+	}
+	var cs []cand
+	for _, a := range g.openAllocs() {
+		sa := findAlloc(g.prev, a.id)
+		for _, ba := range sa.Blobbers {
+			if ba.UsedSize > 0 && g.byID[ba.BlobberID] != nil {
+				cs = append(cs, cand{a, g.byID[ba.BlobberID]})
+			}
+		}
+	}
+	if len(cs) == 0 {
+		g.stepWrite()
+		return
+	}
+	c := cs[g.r.Intn(len(cs))]
+	price := g.pickU(100000, 100000, 500000, 1000000, 16000000)
+	g.do(c.b.delegate, "update_blobber_settings", map[string]interface{}{"id": c.b.key.ID, "terms": map[string]interface{}{"write_price": price}}, 0,
+		opInfo{variant: "wprice", tblob: c.b.key.ID})
+	if g.chance(30) {
+		g.nextBlock(g.pickI(5, 300, 1200), 1)
+	}
+	g.do(g.ownerOf(c.a), "update_allocation_request", map[string]interface{}{"id": c.a.id, "extend": true}, g.pickU(0, 2000000, 6000000),
+		opInfo{variant: "extend-owner", target: c.a.id})
 }
 
 func (g *gen) stepCollect() {
